@@ -115,7 +115,7 @@ def gen_geom(rng):
     nn = rng.choice([0, 2, 4])
     normals = []
     for _ in range(nn):
-        normals += rng.choice([[1, 0, 0], [0, 1, 0], [0, 0, 1], [0, 0, -1]])
+        normals += rng.choice([[1, 0, 0], [0, 1, 0], [0, 0, 1], [0, 0, -1], [2, 0, 0], [0, 3, 4], [0, 0, 0]])
     ntex = rng.choice([0, 0, 1, 2])
     ntexv = rng.randint(2, 5)
     tex = [[rng.randint(0, 4) / 4.0 for _ in range(2 * ntexv)] for _ in range(ntex)]
@@ -254,13 +254,22 @@ def c_case(res):
 
 # ------------------------------------------------------------------ running
 
-def run_impl_cases(cases, per=25):
+def crashed(case, reason):
+    return {'built': True, 'steps': [], 'twin_equal': False, 'crashed': True,
+            'fails': [{'clause': 'crash-or-hang', 'site': 'worker', 'step': 0,
+                       'what': 'the worker crashed or hung on this history: ' + reason[-300:]}]}
+
+
+def run_impl_cases(cases, per=25, timeout=600):
+    from concurrent.futures import ThreadPoolExecutor
     chunks = [cases[i:i + per] for i in range(0, len(cases), per)]
-    outs = core.run_impl_parallel('c17', [{'cases': ch} for ch in chunks], timeout=900)
+    with ThreadPoolExecutor(max_workers=core.NCPU) as ex:
+        outs = list(ex.map(lambda ch: core.run_cases_bisect('c17', ch, lambda cs: {'cases': cs}, crashed, timeout),
+                           chunks))
     return [r for out in outs for r in out]
 
 
-def failures_of(cases, results, limit=6, do_shrink=True):
+def failures_of(cases, results, limit=4, do_shrink=True):
     out, seen = [], set()
     for c, r in zip(cases, results):
         for f in r['fails']:
@@ -269,9 +278,9 @@ def failures_of(cases, results, limit=6, do_shrink=True):
                 continue
             seen.add(sig)
             inp = c
-            if do_shrink:
+            if do_shrink and not r.get('crashed'):
                 try:
-                    inp = core.run_impl('c17', {'shrink': c, 'clause': f['clause'], 'site': f['site']}, timeout=300)
+                    inp = core.run_impl('c17', {'shrink': c, 'clause': f['clause'], 'site': f['site'], 'step': f.get('step')}, timeout=120)
                 except Exception:  # noqa
                     inp = c
             out.append({'signature': sig, 'clause': f['clause'], 'what': f['what'], 'input': inp, 'detail': f})
@@ -311,7 +320,7 @@ def run(ctx):
     quick = ctx.quick()
     cases = corpus_cases() + fixed_cases()
     nfixed = len(cases)
-    nrand = 200 if quick else 3000
+    nrand = 300 if quick else 3000
     for _ in range(nrand):
         cases.append(gen_case(ctx.rng, 20 if ctx.rng.random() < 0.85 else 40))
     ctx.log('running %d histories (documents x query batches) on the implementation' % len(cases))
@@ -362,7 +371,7 @@ def run(ctx):
     }
 
     def search(mm):
-        extra = [gen_case(ctx.rng, 30) for _ in range(300)]
+        extra = [gen_case(ctx.rng, 30) for _ in range(120)]
         res = run_impl_cases(extra)
         ok = [(c, r) for c, r in zip(extra, res) if r['built']]
         return failures_of([c for c, _ in ok], [r for _, r in ok])
